@@ -344,7 +344,7 @@ def files(draw, prof=None):
     # ---- routine contents -------------------------------------------------------------------------------
     unit_index = {id(u): k for k, u in enumerate(units)}
 
-    def fill(r, scope_host, mod, mi_limit, depth=0):
+    def fill(r, scope_host, mod, mi_limit, depth=0, hosts=()):
         """fill spec and body of routine r; mod = enclosing module or None; mi_limit: modules[:mi_limit] importable"""
         scope = Scope(r, scope_host)
         pure = False
@@ -384,7 +384,7 @@ def files(draw, prof=None):
         if pure:
             r['body'] = _pure_body(b, r)
             return
-        env = {'r': r, 'scope': scope, 'mod': mod, 'limit': mi_limit, 'nobj': 0, 'depth': depth}
+        env = {'r': r, 'scope': scope, 'mod': mod, 'limit': mi_limit, 'nobj': 0, 'depth': depth, 'hosts': list(hosts)}
         # internal procedures first (so the host can call them)
         if p['internal'] and depth == 0 and r['sig'] in ('x', 'r', 'this', 'fun') and b.chance(30):
             for j in range(b.i(1, 2)):
@@ -396,16 +396,17 @@ def files(draw, prof=None):
                 r['contains'].append(c)
         r['body'] = _body(b, env, p['max_depth'], b.i(1, p['max_stmts']))
         for c in r['contains']:
-            fill(c, scope, mod, mi_limit, depth + 1)
+            fill(c, scope, mod, mi_limit, depth + 1, tuple(hosts) + (r,))
 
     def callables(env):
         """[(kind, parts/name, module or None, argsig)] reachable from the routine in env"""
         r, mod = env['r'], env['mod']
         out = []
         self_ok = 'recursive' in ' '.join(r['prefix'])
+        banned = [h for h in env['hosts'] + [r] if 'recursive' not in ' '.join(h['prefix'])]
         if mod is not None:
             for rr in mod['routines']:
-                if rr is r and not self_ok:
+                if any(rr is h for h in banned):
                     continue
                 if rr['sig'] in ('x', 'r'):
                     out.append(('same', rr['name'], None, rr['sig']))
@@ -420,7 +421,7 @@ def files(draw, prof=None):
                 if it[0] == 'generic':
                     out.append(('mod', it[1], mm['name'], 'g' + ''.join(_routine(mm, pn)['sig'] for pn in it[2])))
         for fr in free:
-            if fr['k'] == 'sub' and (fr is not r or self_ok) and not _is_ancestor_free(fr, r):
+            if fr['k'] == 'sub' and not any(fr is h for h in banned):
                 out.append(('free', fr['name'], None, 'x'))
         host = r
         for c in r['contains']:
@@ -516,9 +517,12 @@ def _pure_body(b, r):
 
 
 # ---- bodies -------------------------------------------------------------------------------------------
-def _ivar(b, env):
+def _ivar(b, env, write=False):
     r = env['r']
-    return b.pick(r['locals'] + ['x'])
+    cands = r['locals'] + ['x' if r['sig'] not in ('r', 'thisr') else 'xi']
+    if write:
+        cands = [c for c in cands if c not in env.get('active', ())]
+    return b.pick(cands)
 
 
 def _expr(b, env, depth=2):
@@ -614,7 +618,7 @@ def _call(b, env):
     local = name
     if kind in ('mod', 'ext'):
         local = access(b, env['scope'], mod, name)
-    elif kind == 'free' and b.p['ifaces'] and b.chance(30):
+    elif kind == 'free' and b.p['ifaces'] and b.chance(30) and not any(name == h['name'] for h in env['hosts'] + [r]):
         if not any(it[0] == 'plain' and any(bd[1] == name for bd in it[1]) for it in _all_ifaces(env)):
             if r['ifaces'] and r['ifaces'][-1][0] == 'plain' and b.chance(50):
                 r['ifaces'][-1][1].append(['sub', name, 'x'])
@@ -660,13 +664,13 @@ def _body(b, env, depth, n):
                 continue
             c = 40
         if c < 58:
-            lhs = ['v', _ivar(b, env)]
+            lhs = ['v', _ivar(b, env, True)]
             if r['arrs'] and b.chance(20):
                 lhs = ['e', r['arrs'][0], ['i', b.i(1, 3)]]
             if b.p.get('kw_lhs') is False:
                 # exclusion by construction: no statement starts with an identifier that starts with 'call'
                 if lhs[1].startswith('call'):
-                    lhs = ['v', 'x']
+                    lhs = ['v', 'x' if r['sig'] not in ('r', 'thisr') else 'xi']
             opts = {}
             if b.p['labels'] and b.chance(5):
                 opts['label'] = b.newlabel()
@@ -722,7 +726,7 @@ def _body(b, env, depth, n):
                             [['assign', ['v', 'x' if r['sig'] not in ('r', 'thisr') else 'xi'],
                               ['b', '+', ['v', nm], ['i', 1]], {}]] + _body(b, env, depth - 1, m - 1)])
         else:
-            out.append(['assign', ['v', _ivar(b, env) if b.p.get('kw_lhs') is not False else 'x'], _expr(b, env), {}])
+            out.append(['assign', ['v', 'x' if r['sig'] not in ('r', 'thisr') else 'xi'], _expr(b, env), {}])
     return out
 
 
